@@ -37,6 +37,7 @@ def run(repo, chk):
     chk.trust("reference/tls13_automaton.json transcribed from RFC 8446 section 2 and appendix A.1/A.2")
     chk.decline("behaviour of a key-holding adversary as a dynamic claim (decided here only in its structural form R3)")
 
+    client_auth_agreement(repo, chk)
     d = T.Dispatch(repo)
     chk.count("states", len(d.states))
     chk.count("message_types", len(d.types))
@@ -117,6 +118,28 @@ def run(repo, chk):
     uk = Fn(repo, "quic.connection:QuicConnection._update_traffic_key")
     setups = uk.calls(suffix="setup")
     chk.ob("R4", "connection._update_traffic_key installs keys through crypto.{send,recv}.setup", len(setups) >= 2, f"setup calls: {[norm(c.func) for c in setups]}", uk.loc(uk.node))
+
+
+def client_auth_agreement(repo, chk, R2="R2"):
+    """when the server put a CertificateRequest into its flight it goes on to expect the client's Certificate:
+    on no path that sent the request is another state entered (paths contradicting the condition under which the
+    request was sent are pruned)"""
+    sh = Fn(repo, "tls:Context._server_handle_hello")
+    reqs = sh.calls(name="push_certificate_request")
+    if len(reqs) != 1:
+        raise AnalysisError("_server_handle_hello: push_certificate_request call not found")
+    cfg = sh.cfg
+    assume = [a for a in sh.guard_atoms(reqs[0]) if not a[0].startswith("(")]
+    writes = [norm(st) for st, t, v in sh.assigns() if isinstance(t, ast.Attribute) and norm(t) in {a[0] for a in assume} | {"self._request_client_certificate"}]
+    others = []
+    for c in sh.calls():
+        cn = call_name(c)
+        if cn == "self._server_expect_finished" or (cn == "self._set_state" and c.args and norm(c.args[0]) != "State.SERVER_EXPECT_CERTIFICATE"):
+            if sh.reaches_assuming(cfg.done_of(reqs[0]), cfg.node_of(c), assume):
+                others.append(norm(c)[:50])
+    exp = [c for c in sh.calls(name="self._set_state") if c.args and norm(c.args[0]) == "State.SERVER_EXPECT_CERTIFICATE"]
+    ok = not others and bool(exp) and not writes and any(sh.reaches_assuming(cfg.done_of(reqs[0]), cfg.node_of(c), assume) for c in exp)
+    chk.ob(R2, "_server_handle_hello: a flight that carries a CertificateRequest is followed by SERVER_EXPECT_CERTIFICATE on every path", ok, f"after the request was sent (under {assume}) the handler can continue with {others}: the client's Finished is accepted without the requested Certificate / CertificateVerify", sh.loc(reqs[0]))
 
 
 def transitions_after(repo, chk, ref, R4="R4"):
